@@ -182,6 +182,16 @@ func (wkr *worker) startContainer(ctr arvados.Container) {
 		}
 		wkr.mtx.Lock()
 		defer wkr.mtx.Unlock()
+		if wkr.starting[ctr.UUID] != rr {
+			// Someone else (e.g., probeAndUpdate() ->
+			// updateRunning()) already moved our runner
+			// from wkr.starting to wkr.running while we
+			// were in rr.Start(), and might even have
+			// closed it since then. Putting it (back) in
+			// wkr.running now would cause it to be closed
+			// twice.
+			return
+		}
 		now := time.Now()
 		wkr.updated = now
 		wkr.busy = now
